@@ -163,6 +163,13 @@ pub proof fn lemma_first_index_none(s: Seq<u8>, sep: u8, i: int)
 {
     if i < s.len() { lemma_first_index_none(s, sep, i + 1); }
 }
+pub proof fn lemma_first_index_some(s: Seq<u8>, sep: u8, i: int)
+    requires 0 <= i <= s.len()
+    ensures i <= first_index(s, sep, i) <= s.len(), first_index(s, sep, i) < s.len() ==> s[first_index(s, sep, i)] == sep,
+    decreases s.len() - i
+{
+    if i < s.len() { lemma_first_index_some(s, sep, i + 1); }
+}
 pub proof fn lemma_no_sep_count0(s: Seq<u8>, sep: u8)
     ensures (forall|j: int| 0 <= j < s.len() ==> s[j] != sep) ==> count_sep(s, sep) == 0
     decreases s.len()
